@@ -265,7 +265,8 @@ Record mframe (s s' : state) : Prop := mkMframe {
   mf_vs : c_verifiers (s_c s') = c_verifiers (s_c s);
   mf_records : c_records (s_c s') = c_records (s_c s);
   mf_height : c_height (s_c s') = c_height (s_c s);
-  mf_remote : w_remote (s_w s') = w_remote (s_w s)
+  mf_remote : w_remote (s_w s') = w_remote (s_w s);
+  mf_key : assoc (B "key") (w_config (s_w s')) = assoc (B "key") (w_config (s_w s))
 }.
 
 Lemma mframe_refl s : mframe s s.
@@ -275,7 +276,7 @@ Lemma mframe_trans s1 s2 s3 : mframe s1 s2 -> mframe s2 s3 -> mframe s1 s3.
 Proof. intros [] []. constructor; congruence. Qed.
 
 Lemma tframe_mframe s s' : tframe s s' -> mframe s s'.
-Proof. intros []. constructor; auto. Qed.
+Proof. intros []. constructor; auto. congruence. Qed.
 
 Definition same_head (s s' : state) : Prop :=
   c_latest (s_c s') = c_latest (s_c s) /\ c_latest_msg (s_c s') = c_latest_msg (s_c s).
@@ -387,7 +388,7 @@ Proof.
       assert (HI0 := tframe_cinv _ _ F HI).
       split.
       { destruct HI0. constructor; cbn; auto. right. exact Hsig. }
-      split; [constructor; cbn; apply F|].
+      split; [constructor; cbn; try apply F; rewrite (tf_config _ _ F); reflexivity|].
       split; [split; cbn; apply F|].
       split; [destruct Tn as (evs & ? & ?); exists evs; cbn; auto|].
       split; [destruct (Hq ltac:(discriminate)) as (evs & ? & ?); exists evs; cbn; auto|].
@@ -437,15 +438,35 @@ Proof.
   eapply textend_one; [reflexivity|]. split; [split; exact I | intros []].
 Qed.
 
+Lemma assoc_set_other k k' v l : k <> k' -> assoc k (assoc_set k' v l) = assoc k l.
+Proof.
+  intros Hne. induction l as [|[a b] l IH]; cbn.
+  - destruct (str_eqb k k') eqn:E; [apply str_eqb_eq in E; contradiction | reflexivity].
+  - destruct (str_eqb k' a) eqn:E1; cbn.
+    + apply str_eqb_eq in E1. subst a.
+      destruct (str_eqb k k') eqn:E; [apply str_eqb_eq in E; contradiction | reflexivity].
+    + destruct (str_eqb k a); [reflexivity | exact IH].
+Qed.
+
+Lemma latest_file_not_key nm : latest_file nm <> B "key".
+Proof.
+  unfold latest_file. intros H. apply (f_equal (@rev Z)) in H. rewrite rev_app_distr in H.
+  cbn in H. discriminate.
+Qed.
+
 Lemma write_config_spec f old new s ok s' :
   write_config f old new s = (ok, s') ->
   s_c s' = s_c s /\ w_remote (s_w s') = w_remote (s_w s) /\
   s_tr s' = s_tr s ++ [EvWriteConfig f old new ok] /\
   w_interf (s_w s') = List.tl (w_interf (s_w s)) /\
+  (f <> B "key" -> assoc (B "key") (w_config (s_w s')) = assoc (B "key") (w_config (s_w s))) /\
   (ok = false -> exists x r, w_interf (s_w s) = Some x :: r \/ assoc f (w_config (s_w s)) <> Some old /\ (old <> [] \/ assoc f (w_config (s_w s)) <> None)).
 Proof.
   unfold write_config, bindM, get_world, set_world, emit, ret; cbn. intros [= <- <-]. cbn.
   repeat (split; [reflexivity|]).
+  split.
+  { intros Hf. destruct (str_eqb old _); destruct (w_interf (s_w s)) as [|[x|] rr];
+      repeat rewrite assoc_set_other by (intros Heq; apply Hf; symmetry; exact Heq); reflexivity. }
   intros Hok. destruct (w_interf (s_w s)) as [|[x|] r].
   - exists [], []. right. destruct (assoc f (w_config (s_w s))) as [d|] eqn:Ha.
     + split; [|right; discriminate]. intros [= ->]. rewrite str_eqb_refl in Hok. discriminate.
@@ -498,7 +519,7 @@ Proof.
          (split; [exact HI1|]); (split; [exact Fm|]); (split; [exact Tm | discriminate]).
     (* msg is in the past: write our head over it *)
     minv H. unfold get_client in E. inversion E; subst a s2; clear E.
-    minv H. apply write_config_spec in E as (Hc & Hrem & Htr & Hint & Hfail).
+    minv H. apply write_config_spec in E as (Hc & Hrem & Htr & Hint & Hkeep & Hfail).
     cbn in Hm. destruct Hm as (Hhead & Hpos & Hpast).
     assert (Hsame' := Hsame ltac:(discriminate)). destruct Hsame' as [_ Hmsg].
     assert (Hsigned : signed_tree (c_latest_msg (s_c s1)) (c_latest (s_c s1))).
@@ -510,7 +531,8 @@ Proof.
       right. exists t. rewrite Hhead. auto. }
     assert (HI2 : CInv (s_c s2)) by (rewrite Hc; exact HI1).
     assert (F2 : mframe s s2).
-    { eapply mframe_trans; [exact Fm|]. constructor; try (rewrite Hc; reflexivity). exact Hrem. }
+    { eapply mframe_trans; [exact Fm|]. constructor; try (rewrite Hc; reflexivity); [exact Hrem|].
+      apply Hkeep. apply latest_file_not_key. }
     assert (T2 : textend ev_safe s s2).
     { eapply textend_trans; [exact Tm|]. eapply textend_one; [exact Htr | exact Hev]. }
     destruct a.
@@ -714,7 +736,8 @@ Record lframe (s s' : state) : Prop := mkLframe {
   lf_name : c_name (s_c s') = c_name (s_c s);
   lf_vs : c_verifiers (s_c s') = c_verifiers (s_c s);
   lf_height : c_height (s_c s') = c_height (s_c s);
-  lf_remote : w_remote (s_w s') = w_remote (s_w s)
+  lf_remote : w_remote (s_w s') = w_remote (s_w s);
+  lf_key : assoc (B "key") (w_config (s_w s')) = assoc (B "key") (w_config (s_w s))
 }.
 
 Lemma mframe_lframe s s' : mframe s s' -> lframe s s'.
@@ -762,7 +785,9 @@ Definition Fresh (c : client) : Prop :=
 Lemma init_work_spec s r s' :
   Fresh (s_c s) -> key_ok (s_w s) ->
   init_work sha node_hash V s = (r, s') ->
-  c_init (s_c s') = None /\ w_remote (s_w s') = w_remote (s_w s) /\
+  c_init (s_c s') = None /\
+  (w_remote (s_w s') = w_remote (s_w s) /\
+   assoc (B "key") (w_config (s_w s')) = assoc (B "key") (w_config (s_w s))) /\
   (c_height (s_c s') = c_height (s_c s) /\ c_records (s_c s') = c_records (s_c s)) /\
   textend ev_safe s s' /\
   (r = None -> CInv (s_c s')) /\ (r = Some ESecurity -> has_sec s s') /\ r <> Some EFuelC.
@@ -770,11 +795,13 @@ Proof.
   intros (Hi & Hm & Hn & Hr & Hh) Hkey H. unfold init_work in H.
   minva H k s1 E1. apply read_config_spec in E1 as (F1 & T1 & Hk).
   assert (Hstop : forall e, e <> ESecurity -> e <> EFuelC -> (Some e, s1) = (r, s') ->
-     c_init (s_c s') = None /\ w_remote (s_w s') = w_remote (s_w s) /\
+     c_init (s_c s') = None /\
+     (w_remote (s_w s') = w_remote (s_w s) /\
+      assoc (B "key") (w_config (s_w s')) = assoc (B "key") (w_config (s_w s))) /\
      (c_height (s_c s') = c_height (s_c s) /\ c_records (s_c s') = c_records (s_c s)) /\
      textend ev_safe s s' /\ (r = None -> CInv (s_c s')) /\ (r = Some ESecurity -> has_sec s s') /\ r <> Some EFuelC).
   { intros e H1 H2 [= <- <-]. split; [rewrite (tf_init _ _ F1); exact Hi|].
-    split; [apply (tf_remote _ _ F1)|]. split; [split; [apply (tf_height _ _ F1) | apply (tf_records _ _ F1)]|].
+    split; [split; [apply (tf_remote _ _ F1) | rewrite (tf_config _ _ F1); reflexivity]|]. split; [split; [apply (tf_height _ _ F1) | apply (tf_records _ _ F1)]|].
     split; [apply textend_quiet_safe; exact T1|]. split; [discriminate|]. split; congruence. }
   destruct k as [vkey|].
   2: { apply ret_inv in H as [-> ->]. eapply Hstop; [| |reflexivity]; discriminate. }
@@ -793,24 +820,28 @@ Proof.
       rewrite (tf_latest _ _ F1), Hn. reflexivity.
     - rewrite (tf_records _ _ F1), Hr. intros f d [].
     - rewrite (tf_records _ _ F1), Hr. intros f []. }
-  assert (F3 : c_init (s_c s3) = None /\ w_remote (s_w s3) = w_remote (s_w s) /\
+  assert (F3 : c_init (s_c s3) = None /\
+               (w_remote (s_w s3) = w_remote (s_w s) /\
+                assoc (B "key") (w_config (s_w s3)) = assoc (B "key") (w_config (s_w s))) /\
                (c_height (s_c s3) = c_height (s_c s) /\ c_records (s_c s3) = c_records (s_c s))).
   { unfold s3; cbn. split; [rewrite (tf_init _ _ F1); exact Hi|].
-    split; [apply (tf_remote _ _ F1) | split; [apply (tf_height _ _ F1) | apply (tf_records _ _ F1)]]. }
+    split; [split; [apply (tf_remote _ _ F1) | rewrite (tf_config _ _ F1); reflexivity]
+           | split; [apply (tf_height _ _ F1) | apply (tf_records _ _ F1)]]. }
   assert (T3 : textend ev_safe s s3).
   { apply textend_quiet_safe. destruct T1 as (evs & ? & ?). exists evs. unfold s3; cbn. auto. }
-  destruct F3 as (Fi & Fr & Fh & Frec).
+  destruct F3 as (Fi & (Fr & Fk) & Fh & Frec).
   minva H d s4 E4. apply read_config_spec in E4 as (F4 & T4 & _).
   assert (HI4 := tframe_cinv _ _ F4 HI3).
   destruct d as [data|].
   2: { apply ret_inv in H as [-> ->]. split; [rewrite (tf_init _ _ F4); exact Fi|].
-       split; [rewrite (tf_remote _ _ F4); exact Fr|].
+       split; [split; [rewrite (tf_remote _ _ F4); exact Fr | rewrite (tf_config _ _ F4); exact Fk]|].
        split; [split; [rewrite (tf_height _ _ F4); exact Fh | rewrite (tf_records _ _ F4); exact Frec]|].
        split; [eapply textend_trans; [exact T3 | apply textend_quiet_safe; exact T4]|].
        split; [discriminate|]. split; discriminate. }
   apply merge_latest_spec in H as ((HI5 & F5 & T5 & Hsec5) & Hnf5); [|exact HI4].
   split; [rewrite (mf_init _ _ F5), (tf_init _ _ F4); exact Fi|].
-  split; [rewrite (mf_remote _ _ F5), (tf_remote _ _ F4); exact Fr|].
+  split; [split; [rewrite (mf_remote _ _ F5), (tf_remote _ _ F4); exact Fr
+                 | rewrite (mf_key _ _ F5), (tf_config _ _ F4); exact Fk]|].
   split; [split; [rewrite (mf_height _ _ F5), (tf_height _ _ F4); exact Fh
                  | rewrite (mf_records _ _ F5), (tf_records _ _ F4); exact Frec]|].
   assert (T4' : textend ev_safe s s4) by (eapply textend_trans; [exact T3 | apply textend_quiet_safe; exact T4]).
@@ -830,7 +861,9 @@ Definition ClientInv (c : client) : Prop :=
 Lemma lookup_m_spec path vers s r s' :
   ClientInv (s_c s) -> (c_init (s_c s) = None -> key_ok (s_w s)) ->
   lookup_m sha leaf_hash node_hash V esc_path esc_vers skip path vers s = (r, s') ->
-  ClientInv (s_c s') /\ textend ev_safe s s' /\ w_remote (s_w s') = w_remote (s_w s) /\
+  ClientInv (s_c s') /\ textend ev_safe s s' /\
+  (w_remote (s_w s') = w_remote (s_w s) /\
+   assoc (B "key") (w_config (s_w s')) = assoc (B "key") (w_config (s_w s))) /\
   (forall lines, r = LOk lines ->
      CInv (s_c s') /\ exists d, auth_record d /\ lines = result_lines path vers d) /\
   (r = LErr ESecurity ->
@@ -840,18 +873,20 @@ Lemma lookup_m_spec path vers s r s' :
 Proof.
   intros HC Hkey H. unfold lookup_m in H.
   destruct (skip path).
-  { apply ret_inv in H as [-> ->]. split; [exact HC|]. split; [apply textend_refl|]. split; [reflexivity|].
+  { apply ret_inv in H as [-> ->]. split; [exact HC|]. split; [apply textend_refl|]. split; [split; reflexivity|].
     split; [discriminate|]. split; discriminate. }
   minva H e0 s1 E1.
   (* initialisation *)
-  assert (Hinit : ClientInv (s_c s1) /\ textend ev_safe s s1 /\ w_remote (s_w s1) = w_remote (s_w s) /\
+  assert (Hinit : ClientInv (s_c s1) /\ textend ev_safe s s1 /\
+                  (w_remote (s_w s1) = w_remote (s_w s) /\
+                   assoc (B "key") (w_config (s_w s1)) = assoc (B "key") (w_config (s_w s))) /\
                   c_init (s_c s1) = Some e0 /\
                   (e0 = Some ESecurity -> has_sec s s1 \/ c_init (s_c s) = Some (Some ESecurity)) /\
                   c_records (s_c s1) = c_records (s_c s)).
   { unfold client_init in E1. minva E1 c0 sa Ea. unfold get_client in Ea. inversion Ea; subst c0 sa; clear Ea.
     unfold ClientInv in HC. destruct (c_init (s_c s)) as [r0|] eqn:Hci.
     - apply ret_inv in E1 as [-> ->]. unfold ClientInv. rewrite Hci.
-      split; [exact HC|]. split; [apply textend_refl|]. split; [reflexivity|]. split; [reflexivity|].
+      split; [exact HC|]. split; [apply textend_refl|]. split; [split; reflexivity|]. split; [reflexivity|].
       split; [intros ->; right; reflexivity | reflexivity].
     - minva E1 r1 sb Eb. apply init_work_spec in Eb as (Hi & Hrm & (Hh & Hrec) & T & Hnone & Hsec & Hnf); auto.
       minva E1 c2 sc Ec. unfold get_client in Ec. inversion Ec; subst c2 sc; clear Ec.
@@ -873,7 +908,9 @@ Proof.
     - intros [= ->]. unfold ClientInv in HC1. rewrite Hci1 in HC1. apply HC1. reflexivity. }
   assert (HI1 : CInv (s_c s1)) by (unfold ClientInv in HC1; rewrite Hci1 in HC1; exact HC1).
   assert (Hstop : forall e, e <> ESecurity -> e <> EFuelC -> (LErr e, s1) = (r, s') ->
-    ClientInv (s_c s') /\ textend ev_safe s s' /\ w_remote (s_w s') = w_remote (s_w s) /\
+    ClientInv (s_c s') /\ textend ev_safe s s' /\
+    (w_remote (s_w s') = w_remote (s_w s) /\
+     assoc (B "key") (w_config (s_w s')) = assoc (B "key") (w_config (s_w s))) /\
     (forall lines, r = LOk lines -> CInv (s_c s') /\ exists d, auth_record d /\ lines = result_lines path vers d) /\
     (r = LErr ESecurity -> has_sec s s' \/ c_init (s_c s) = Some (Some ESecurity) \/
        exists f, In (f, RErr ESecurity) (c_records (s_c s))) /\ r <> LErr EFuelC).
@@ -890,7 +927,9 @@ Proof.
   assert (HC3 : ClientInv (s_c s3)).
   { unfold ClientInv. rewrite (lf_init _ _ F3), Hci1. exact HI3. }
   assert (T13 : textend ev_safe s s3) by (eapply textend_trans; eauto).
-  assert (Hrm3 : w_remote (s_w s3) = w_remote (s_w s)) by (rewrite (lf_remote _ _ F3); exact Hrm1).
+  assert (Hrm3 : w_remote (s_w s3) = w_remote (s_w s) /\
+                 assoc (B "key") (w_config (s_w s3)) = assoc (B "key") (w_config (s_w s))).
+  { destruct Hrm1 as [Ha Hb]. split; [rewrite (lf_remote _ _ F3); exact Ha | rewrite (lf_key _ _ F3); exact Hb]. }
   destruct rr as [data|err]; apply ret_inv in H as [-> ->].
   - split; [exact HC3|]. split; [exact T13|]. split; [exact Hrm3|].
     split; [|split; discriminate].
@@ -901,6 +940,72 @@ Proof.
       * left. eapply has_sec_l; [exact T1 | exact Hs].
       * right. right. rewrite Hsame1 in Hin. eauto.
     + intros [= ->]. apply Hnf3. reflexivity.
+Qed.
+
+(* ---- C13: a signed head that is not consistent with the client's is never accepted ------------------- *)
+
+Lemma open_nil_fails : Note.open str V [] vs = Note.Err Malformed.
+Proof. reflexivity. Qed.
+
+Lemma signed_tree_fun msg t1 t2 : signed_tree msg t1 -> signed_tree msg t2 -> t1 = t2.
+Proof. intros (n1 & H1 & P1) (n2 & H2 & P2). rewrite H1 in H2. injection H2 as <-. congruence. Qed.
+
+Lemma signed_tree_nonnil msg t : signed_tree msg t -> msg <> [].
+Proof. intros (n & H & _) ->. rewrite open_nil_fails in H. discriminate. Qed.
+
+(* the order in which mergeLatestMem compares the presented tree with the client's *)
+Definition on_timeline (latest tr : tree) : Prop :=
+  if Codec.tN tr <=? Codec.tN latest then Consistent tr latest else Consistent latest tr.
+
+Lemma fork_never_accepted_mem msg tr s r s' :
+  CInv (s_c s) -> signed_tree msg tr -> ~ on_timeline (c_latest (s_c s)) tr ->
+  merge_latest_mem node_hash V msg s = (r, s') ->
+  (exists e, r = inr e) /\ same_head s s' /\ same_config s s' /\ textend ev_nocfg s s'.
+Proof.
+  intros HI Hsig Hfork H. assert (Hnn := signed_tree_nonnil _ _ Hsig).
+  apply merge_latest_mem_spec in H as (HI' & F & C & T & Hr); [|exact HI].
+  destruct r as [w|e].
+  - exfalso. apply Hfork. destruct Hr as (_ & Hm & _). unfold on_timeline.
+    destruct w; cbn in Hm.
+    + destruct Hm as (_ & _ & [->|(t & Ht & Hlt & Hc)]); [contradiction|].
+      rewrite (signed_tree_fun _ _ _ Hsig Ht).
+      replace (Codec.tN t <=? Codec.tN (c_latest (s_c s))) with true by (symmetry; apply Z.leb_le; lia).
+      exact Hc.
+    + destruct Hm as (_ & [->|(t & Ht & Heq & Hc)]); [contradiction|].
+      rewrite (signed_tree_fun _ _ _ Hsig Ht).
+      replace (Codec.tN t <=? Codec.tN (c_latest (s_c s))) with true by (symmetry; apply Z.leb_le; lia).
+      exact Hc.
+    + destruct Hm as (_ & _ & Ht & Hlt & Hc).
+      rewrite (signed_tree_fun _ _ _ Hsig Ht).
+      replace (Codec.tN (c_latest (s_c s')) <=? Codec.tN (c_latest (s_c s))) with false by (symmetry; apply Z.leb_gt; lia).
+      exact Hc.
+  - destruct Hr as (Hsame & _). split; [eauto|]. auto.
+Qed.
+
+Lemma fork_never_accepted_merge msg tr s r s' :
+  CInv (s_c s) -> signed_tree msg tr -> ~ on_timeline (c_latest (s_c s)) tr ->
+  merge_latest node_hash V msg s = (r, s') ->
+  (exists e, r = Some e) /\ same_head s s' /\ same_config s s' /\ textend ev_nocfg s s'.
+Proof.
+  intros HI Hsig Hfork H. unfold merge_latest in H. minva H a s1 E.
+  eapply fork_never_accepted_mem in E as ((e & ->) & Hh & Hc & T); eauto.
+  apply ret_inv in H as [-> ->]. split; [eauto|]. auto.
+Qed.
+
+(* ---- the security report contains both notes -------------------------------------------------------- *)
+
+Definition infix (a m : str) : Prop := exists pre post, m = pre ++ a ++ post.
+
+Lemma security_msg_contains older newer h p :
+  infix (indent older) (security_msg older newer h p) /\ infix (indent newer) (security_msg older newer h p).
+Proof.
+  unfold security_msg, infix. split.
+  - exists (B "SECURITY ERROR" ++ [10] ++ B "go.sum database server misbehavior detected!" ++ [10; 10]
+            ++ B "old database:" ++ [10; 9]).
+    eexists. repeat rewrite <- app_assoc. reflexivity.
+  - exists (B "SECURITY ERROR" ++ [10] ++ B "go.sum database server misbehavior detected!" ++ [10; 10]
+            ++ B "old database:" ++ [10; 9] ++ indent older ++ [10] ++ B "new database:" ++ [10; 9]).
+    eexists. repeat rewrite <- app_assoc. reflexivity.
 Qed.
 
 End Safe.
